@@ -43,13 +43,21 @@ RDFLIB_ENTRIES = {
 
 def make_options(cfg: dict, flow: Any = None) -> pstreams.SerializerOptions:
     n, p, d = cfg.get("preset", (4000, 150, 32))
-    params = StreamParameters(
+    kw = dict(
         generalized_statements=cfg.get("generalized", True),
         rdf_star=cfg.get("rdf_star", True),
         delimited=cfg.get("delimited", True),
         namespace_declarations=cfg.get("ns", False),
         stream_name=cfg.get("stream_name", ""),
     )
+    how = cfg.get("params_build", "direct")
+    if how == "version1":            # a caller who spells out the (lowest) version and asks for declarations
+        params = StreamParameters(version=1, **kw)
+    elif how == "replace":           # ... or derives the parameters from existing ones (defaults, parsed options)
+        import dataclasses
+        params = dataclasses.replace(StreamParameters(), **kw)
+    else:
+        params = StreamParameters(**kw)
     return pstreams.SerializerOptions(
         flow=flow,
         frame_size=cfg.get("frame_size", 250),
@@ -181,6 +189,9 @@ def serialize(cfg: dict, stmts: list, ns: list | None = None) -> bytes:
                     out.write(f.read())
             finally:
                 os.unlink(path)
+        elif entry == "graph_serialize_stream_only":
+            store = rdflib_store_of(stmts, ns, dataset=cfg["physical"] != 1, empty_graphs=cfg.get("empty_graphs"))
+            store.serialize(out, format="jelly", stream=make_stream(cfg, make_options(cfg)))   # no options=
         elif entry == "graph_serialize_options":
             store = rdflib_store_of(stmts, ns, dataset=cfg["physical"] != 1, empty_graphs=cfg.get("empty_graphs"))
             store.serialize(out, format="jelly", options=make_options(cfg))
